@@ -476,6 +476,10 @@ def handle (st : St) (op : String) (args : List String) (impl : Option String) :
   | "serve", [ls, qs] =>
     let (m, v) := serveOp false ls qs impl
     some (st, { model := m, spec := v })
+  | "servecsc", [ls, qs] =>
+    -- response cache on in the implementation; the cache is invisible (C12), same model
+    let (m, v) := serveOp true ls qs impl
+    some (st, { model := m, spec := v })
   | "servecs", [ls, qs] =>
     let (m, v) := serveOp true ls qs impl
     some (st, { model := m, spec := v })
